@@ -119,6 +119,10 @@ def evalRl (st : DState) (name : String) (t : List String) (impl : String) : Eva
         | .ok v => let e := store v rref "rl.build"; { e with spec := some spec }
         | .fault e => { st := st.note "rl.build.fault", model := renderFault e, spec := some spec })
      | .fault e => { st := st.note "rl.build.fault", model := renderFault e, spec := some spec })
+  | "ref" :: len :: runs =>
+    (match st.rls[name]? with
+     | some o => { st := { st with rls := st.rls.insert name ⟨o.m, num len, runs.map twoNats⟩ }, model := "ok", spec := some "ok" }
+     | none => { st := st, model := "panic:no-object" })
   | "builder" :: calls =>
     let calls := calls.filter (· ≠ ":")
     let obsM := fun (b : RLBuilder) => s!"{b.len},{b.ones}"
@@ -187,7 +191,7 @@ where
         res (first (v.predecessor m x)) (some (rOptPair (rlPred runs (min x (len - 1))))) "rl.pred"
       | ["succ", x] => let x := num x
         res (first (v.successor m x)) (some (rOptPair (if x ≥ len then none else rlSucc runs x))) "rl.succ"
-      | ["ser"] => res (rWords ((rlC m).ser v)) none "rl.ser"
+      | ["doc"] | ["ser"] => res (rWords ((rlC m).ser v)) none "rl.ser"
       | ["runs"] =>
         let rec drain (fuel : Nat) (it : RunIter) (acc : List String) : String :=
           match fuel with
